@@ -240,6 +240,7 @@ func main() {
 		fmt.Fprintln(os.Stderr, "explore:", err)
 		os.Exit(2)
 	}
+	dumpForkProf()
 	if queryOrigins != nil {
 		for k, v := range queryOrigins {
 			fmt.Fprintf(os.Stderr, "QORIGIN %8d %s\n", v, k)
